@@ -47,11 +47,12 @@ func main() {
 	stubList := flag.String("stub", "", "comma-separated target=HarnessFunc: calls of target (ssa Function.String()) run HarnessFunc (declared in the harness package) instead")
 	flag.Parse()
 
-	var pool *workerPool
-	if *workers > 1 && !*serve && *prefixFile == "" {
-		pool = startPool(*workers) // the workers load the packages while this process does
-		defer pool.stop()
-	}
+	var pool *workerPool // started when the first harness turns out to be big (each worker has to load the packages itself)
+	defer func() {
+		if pool != nil {
+			pool.stop()
+		}
+	}()
 	overlay := map[string][]byte{}
 	if *overlayFile != "" {
 		raw, err := os.ReadFile(*overlayFile)
@@ -150,10 +151,13 @@ func main() {
 				var pf [][]interp.Decision
 				check(json.Unmarshal(raw, &pf))
 				r, _ = sess.ExploreFrom(f, pf, 0)
-			case pool != nil:
+			case *workers > 1 && !*serve:
 				var left [][]interp.Decision
 				r, left = sess.ExploreFrom(f, nil, *workers*6)
 				if len(left) > 0 {
+					if pool == nil {
+						pool = startPool(*workers)
+					}
 					pool.run(r, left, name)
 				}
 			default:
@@ -222,6 +226,7 @@ func startPool(n int) *workerPool {
 func (p *workerPool) stop() {
 	for _, w := range p.ws {
 		w.raw.Close()
+		w.cmd.Process.Kill() // a worker that is still loading packages is not waited for
 		w.cmd.Wait()
 	}
 }
